@@ -142,6 +142,22 @@ func (f *Frame) execCall(cur *blockCur, in ssa.Instruction, cc *ssa.CallCommon, 
 				v.T = res.Type()
 			}
 			f.vals[res] = v
+			// returned(NAME) in specifications: the value of the latest call of NAME
+			if f.callerFrame == nil {
+				if f.c.lastCall == nil {
+					f.c.lastCall = map[string]Val{}
+				}
+				if f.c.lastCallBlock == nil {
+					f.c.lastCallBlock = map[string]*ssa.BasicBlock{}
+				}
+				if sc := cc.StaticCallee(); sc != nil {
+					f.c.lastCall[sc.Name()] = v
+					f.c.lastCallBlock[sc.Name()] = in.Block()
+				} else if cc.IsInvoke() {
+					f.c.lastCall[cc.Method.Name()] = v
+					f.c.lastCallBlock[cc.Method.Name()] = in.Block()
+				}
+			}
 		}
 	}
 	var args []Val
@@ -181,6 +197,7 @@ func (f *Frame) execCall(cur *blockCur, in ssa.Instruction, cc *ssa.CallCommon, 
 	if res != nil {
 		hint = f.prefixSym() + res.Name()
 	}
+	f.callAsserts(cur, in, cc, callee, args)
 	if callee == nil {
 		if cc.IsInvoke() {
 			if con := c.eng.ifaceContract(cc); con != nil {
@@ -199,6 +216,7 @@ func (f *Frame) execCall(cur *blockCur, in ssa.Instruction, cc *ssa.CallCommon, 
 		f.havocAll(cur)
 		r := f.freshVal(rt, hint)
 		cur.assume(f.typeInv(r))
+		cur.assume(c.refBound(r, cur.st.watermark()))
 		set(r)
 		return
 	}
@@ -230,6 +248,7 @@ func (f *Frame) execCall(cur *blockCur, in ssa.Instruction, cc *ssa.CallCommon, 
 	f.havocAll(cur)
 	r := f.freshVal(rt, hint)
 	cur.assume(f.typeInv(r))
+	cur.assume(c.refBound(r, cur.st.watermark()))
 	set(r)
 }
 
@@ -248,6 +267,8 @@ func (f *Frame) havocAll(cur *blockCur) {
 	}
 	// the ghost effect counter is unknown as well: the callee may have had effects
 	cur.st = ns
+	// the allocation watermark may have risen, never fallen (alloc.go)
+	cur.assume(fmt.Sprintf("(>= %s %s)", ns.watermark(), old.watermark()))
 }
 
 type localObj struct {
@@ -524,6 +545,9 @@ func (f *Frame) execAppend(cur *blockCur, in ssa.Instruction, cc *ssa.CallCommon
 	}
 	facts = append(facts, fmt.Sprintf("(not (= %s (s_ref %s)))", fresh, s.S))
 	c.allAllocs = append(c.allAllocs, fresh)
+	// the (possibly unused) new backing array lies above the allocation watermark (alloc.go)
+	facts = append(facts, fmt.Sprintf("(> %s %s)", fresh, cur.st.watermark()))
+	cur.st = cur.st.set(allocKey, fresh)
 	newCap := c.declare(hint+"_cap", idx)
 	rref := fmt.Sprintf("(ite %s (s_ref %s) %s)", inplace, s.S, fresh)
 	roff := fmt.Sprintf("(ite %s (s_off %s) %s)", inplace, s.S, c.so.idxLit(0))
